@@ -48,7 +48,7 @@ PROPS = {
             {"pkg": "interpreter", "name": "VH_C05_Opcode", "thorough_only": True, "thorough": {"params": {"D": 3, "K": 2, "X": 1, "ALIAS": 1, "U": 6, "KM": 1, "OPLO": 126, "OPHI": 165}}},
             {"pkg": "interpreter", "name": "VH_C05_Opcode", "quick": {"params": {"D": 1, "K": 1, "PUSHB": 1, "OPLO": 76, "OPHI": 78, "U": 4}}, "thorough": {"params": {"D": 2, "K": 1, "PUSHB": 1, "OPLO": 76, "OPHI": 78, "U": 4}}},
             {"pkg": "interpreter", "name": "VH_C05_Locktime", "quick": {"params": {"OPLO": 177, "OPHI": 178}}, "thorough": {"params": {"OPLO": 177, "OPHI": 178}}},
-            {"pkg": "interpreter", "name": "VH_C05_Execute", "quick": {"params": {"L": 1, "LONG": 1}}, "thorough": {"params": {"L": 1, "HEAD": 1, "TAIL": 1, "LONG": 0}}},
+            {"pkg": "interpreter", "name": "VH_C05_Execute", "quick": {"params": {"L": 1, "LONG": 1}}, "thorough": {"params": {"L": 1, "HEAD": 1, "TAIL": 1, "LONG": 0, "EARLY": 0}}},
             {"pkg": "interpreter", "name": "VH_C05_Control", "quick": {"params": {"D": 1, "K": 1, "C": 2, "U": 4}}, "thorough": {"params": {"D": 2, "K": 1, "C": 3, "U": 4}}},
         ],
         "validate_tests": [{"pkg": "interpreter", "run": "TestVerifRefScripts"}],
